@@ -444,6 +444,30 @@ def t2(ctx):
                             "non-trivial = label contains a non-alphanumeric character", exhaustive=False)
         _run(ctx, sc3, label_cases(sorted(pool), sc3), lambda c: any(ch in special for ch in c["label"]), labels=True)
 
+    # -- labels with ONE special character in the interior (both tiers, exhaustive): x c y
+    sci = "roundtrip@labels=interior"
+    inner = sorted(set(x + c + y for c in ALPHABET for x in ("a", "Q", "1", "\u00e9") for y in ("a", "Q", "1", "\u00e9")
+                       if admissible(x + c + y)))
+    ctx.scope(sci, rule="every label x+c+y with c one of the %d class representatives and x, y in {a, Q, 1, e-acute} (interior space, "
+                        "underscore, each punctuation character), same tree/format/option grid; non-trivial = c is not alphanumeric" % len(ALPHABET),
+              exhaustive=True)
+    _run(ctx, sci, label_cases(inner, sci), lambda c: any(ch in special for ch in c["label"]), labels=True)
+
+    # -- namespaces of purely numeric labels that are NOT their own 1-based position (taxon-number lookups)
+    scn = "roundtrip@numeric-labels"
+    ctx.scope(scn, rule="trees ((L1:1,L2:2)in1:0.5,L3:0.25) over namespaces of all-digit labels in every order of {1,2,3} plus {10,1,2}, "
+                        "{2,3,1,Zeta}, {0,7}, x {newick,nexus,nexml} x {default, translate}; non-trivial = some label differs from its position",
+              exhaustive=True)
+    num_cases = []
+    nss = [list(p) for p in itertools.permutations(["1", "2", "3"])] + [["10", "1", "2"], ["2", "3", "1", "Zeta"], ["0", "7", "3"]]
+    for ns_ in nss:
+        root = [None, None, None, [[None, "in1", 0.5, [[ns_[0], None, 1.0, []], [ns_[1], None, 2.0, []]]], [ns_[2], None, 0.25, []]]]
+        doc = {"ns": list(ns_), "trees": [{"rooted": True, "root": root, "weight": None}]}
+        for schema in SCHEMAS:
+            for pair in (["default", "translate"] if schema == "nexus" else ["default"]):
+                num_cases.append(dict(scope=scn, schema=schema, pair=pair, kind="tree", route="string", doc=doc, label="/".join(ns_)))
+    _run(ctx, scn, num_cases, lambda c: any(l != str(i + 1) for i, l in enumerate(c["doc"]["ns"])), labels=False)
+
     # -- shapes x lengths x rooting x options
     ml = 5 if thorough else 4
     sc = "roundtrip@shapes<=%d" % ml
